@@ -346,7 +346,10 @@ def r_feature_loop(repo, rep, R='R6.4'):
         inner = it[2][0] if wrapped else it
         okset = show(inner).replace(' ', '') in ('(set(self.x_features.keys())&set(self.y_features.keys()))',
                                                  '(set(self.y_features.keys())&set(self.x_features.keys()))',
-                                                 '(self.x_features.keys()&self.y_features.keys())')
+                                                 '(self.x_features.keys()&self.y_features.keys())',
+                                                 '(set(self.x_features)&set(self.y_features))',
+                                                 '(set(self.y_features)&set(self.x_features))',
+                                                 '(self.y_features.keys()&self.x_features.keys())')
         if not okset and inner[0] in ('listcomp', 'genexp', 'setcomp') and len(inner[2]) == 1:
             # the keys of one table filtered by membership in the other
             src_t, filt = inner[2][0]
